@@ -23,6 +23,15 @@ THEOREMS = [
     "Ural.Props.C12.expected_components",
     "Ural.Props.C12.splitRejoins_of_c08",
     "Ural.Props.C12.relru_fixed",
+    # the parser inside the model (URL strings)
+    "Ural.Props.C12.serialization_string",
+    "Ural.Props.C12.roundtrip_string_partial",
+    "Ural.Props.C12.accessors_string_partial",
+    "Ural.Props.C12.fullRoundtripString_false",
+    "Ural.Props.C12.splitLaw_of_class",
+    "Ural.Props.C12.relru_fixed_class",
+    "Ural.Props.C12.accessors_roundtrip",
+    "Ural.Props.C12.stems_wellformed_of_split",
 ]
 TABLE_OBLIGATIONS = [
     "Ural.Props.C12.port_splitter_pattern",
